@@ -7,4 +7,4 @@
 
 pub mod common;
 pub mod forms;
-pub mod c01;
+pub mod fwire;
